@@ -345,6 +345,130 @@ theorem ok_exits (env : Env) (sub : Query → Res) (d : Nat) (q : Query) (qid : 
           · rename_i hf; exact hf
           · simp at h
 
+/-! ## Insecure ⇒ a validated denial of DS, or only unsupported DS (partial) -/
+
+/-- exit 2 of `ok_exits` for the response to `q`: the NSEC/NSEC3 oracle says Secure on the denial records
+selected from owners that have a Secure record -/
+def NsecDenied (env : Env) (q : Query) (m' : Msg) : Prop :=
+  ∃ mask, (mask = maskOf (selectDenial m'.ns tNSEC3) ∨ mask = maskOf (selectDenial m'.ns tNSEC)) ∧
+    (selectDenial m'.ns tNSEC3 ≠ [] ∨ selectDenial m'.ns tNSEC ≠ []) ∧
+    env.nsec (env.up q).qid mask (maskOf (m'.an.zipIdx.filter fun ri => ri.1.isSig && ri.1.proof == .secure)) = .secure
+
+/-- The two reasons the property admits: for some zone the validator obtained a validated DS response that is
+(a) a negative answer proved by NSEC/NSEC3, or (b) a Secure DS RRset without a Secure record of supported
+algorithm and digest type. -/
+def Justified (env : Env) : Prop :=
+  ∃ fuel d zone md, validate env fuel d ⟨zone, tDS⟩ = .ok md ∧
+    ((md.an = [] ∧ NsecDenied env ⟨zone, tDS⟩ md) ∨
+     ((∃ x ∈ md.an, x.rtype = tDS ∧ x.proof = .secure) ∧ NoSecureSupportedDs md))
+
+/-- hypothesis excluding finding `C07.DsAnswerWithoutDsAccepted`: a DS response of the upstream with a non-empty
+answer section has a DS record in it (on a trace: `dsAnswerWithoutDs trace = false`) -/
+def DsAnswersHaveDs (env : Env) : Prop :=
+  ∀ zone qid m, upMsg env ⟨zone, tDS⟩ = some (qid, m) → m.an ≠ [] → ∃ x ∈ m.an, x.rtype = tDS
+
+theorem validated_ds_answers {env : Env} (hH : DsAnswersHaveDs env) {fuel d : Nat} {zone : DName} {md : Msg}
+    (h : validate env fuel d ⟨zone, tDS⟩ = .ok md) (hno : ∀ x ∈ md.an, x.rtype ≠ tDS) : md.an = [] := by
+  cases fuel with
+  | zero => simp [validate] at h
+  | succ n =>
+    unfold validate at h
+    obtain ⟨m0, hup, hm⟩ := verifyResponse_ok _ _ _ _ _ h
+    have hm' := verifyMsg_ok _ _ _ _ _ _ _ hm
+    have han : md.an = relabel m0.an (verdicts env (validate env n (d + 1)) (d + 1) ⟨zone, tDS⟩
+        (env.up ⟨zone, tDS⟩).qid 0 m0.an) := by rw [hm']
+    cases h0 : m0.an with
+    | nil => rw [han, h0]; rfl
+    | cons y ys =>
+      exfalso
+      obtain ⟨x, hx, ht⟩ := hH zone _ m0 hup (by simp [h0])
+      obtain ⟨i, hi⟩ := mem_relabel_of_mem m0.an
+        (verdicts env (validate env n (d + 1)) (d + 1) ⟨zone, tDS⟩ (env.up ⟨zone, tDS⟩).qid 0 m0.an) x hx
+      rw [← han] at hi
+      exact hno _ hi ((relabelOne_gkey _ _ i x).2.2.trans ht)
+
+theorem denial_step {env : Env} (hc : UpClean env) (hH : DsAnswersHaveDs env) (n : Nat)
+    (ihI : ∀ d q m, validate env n d q = .ok m → ∀ sec, sec < 3 → ∀ r ∈ m.sec sec, r.proof = .insecure → Justified env)
+    (ihJ : ∀ d zone, fetchDs (validate env n d) zone = .err .insecure → Justified env) :
+    (∀ d q m, validate env (n + 1) d q = .ok m → ∀ sec, sec < 3 → ∀ r ∈ m.sec sec, r.proof = .insecure →
+      Justified env) ∧
+    (∀ d zone, fetchDs (validate env (n + 1) d) zone = .err .insecure → Justified env) := by
+  -- I(n+1)
+  have hI : ∀ d q m, validate env (n + 1) d q = .ok m → ∀ sec, sec < 3 → ∀ r ∈ m.sec sec,
+      r.proof = .insecure → Justified env := by
+    intro d q m h sec hsec r hr hp
+    unfold validate at h
+    obtain ⟨m0, hup, hm⟩ := verifyResponse_ok _ _ _ _ _ h
+    have hm' := verifyMsg_ok _ _ _ _ _ _ _ hm
+    have hrel : m.sec sec = relabel (m0.sec sec)
+        (verdicts env (validate env n (d + 1)) (d + 1) q (env.up q).qid sec (m0.sec sec)) := by
+      subst hm'
+      match sec, hsec with
+      | 0, _ => rfl
+      | 1, _ => rfl
+      | 2, _ => rfl
+    rw [hrel] at hr
+    obtain ⟨i, r0, hr0, hrr⟩ := relabel_mem _ _ _ hr
+    have hind : r0.proof = .indet := upMsg_clean hc hup sec r0 hr0
+    obtain ⟨idx, hl⟩ := relabelOne_proof _ _ i r0 .insecure (by simp [hind]) (hrr ▸ hp)
+    obtain ⟨hv, _⟩ := verdicts_lookup _ _ _ _ _ _ _ _ _ hl
+    unfold verifyGroup at hv
+    dsimp only at hv
+    split at hv
+    · rcases verifyDnskeyRrset_insecure_cases _ _ _ _ _ _ hv.symm with hf | ⟨md, hmd, hx, hno⟩
+      · exact ihJ _ _ hf
+      · exact ⟨n, d + 1, _, md, hmd, Or.inr ⟨hx, hno⟩⟩
+    · rcases verifyDefaultRrset_insecure_cases _ _ _ _ _ _ hv.symm with ⟨zone, hf⟩ | ⟨s, mk, k, hmk, hk, hkp⟩
+      · exact ihJ _ _ hf
+      · exact ihI _ _ _ hmk 0 (by omega) k (by simpa [Msg.sec] using hk) hkp
+  refine ⟨hI, ?_⟩
+  -- J(n+1)
+  intro d zone hf
+  obtain ⟨md, hmd, hno, hcase⟩ := fetchDs_insecure_cases _ _ hf
+  rcases hcase with hx | hnods
+  · exact ⟨n + 1, d, zone, md, hmd, Or.inr ⟨hx, hno⟩⟩
+  · have hempty : md.an = [] := validated_ds_answers hH hmd hnods
+    have hmd' := hmd
+    unfold validate at hmd'
+    obtain ⟨m0, hup, hm⟩ := verifyResponse_ok _ _ _ _ _ hmd'
+    have hmeq := verifyMsg_ok _ _ _ _ _ _ _ hm
+    rcases ok_exits _ _ _ _ _ _ _ hm with h1 | h2 | h3 | h4
+    · -- all authorities Insecure: an Insecure record in the validated authority section
+      have hns : md.ns = relabel m0.ns (verdicts env (validate env n (d + 1)) (d + 1) ⟨zone, tDS⟩
+          (env.up ⟨zone, tDS⟩).qid 1 m0.ns) := by rw [hmeq]
+      rw [hns] at h1
+      obtain ⟨x, hx, hxp⟩ := allAuthInsecure_exists _ _ _ _ _ _ h1
+      rw [← hns] at hx
+      exact hI d _ md hmd 1 (by omega) x (by simpa [Msg.sec] using hx) hxp
+    · exact ⟨n + 1, d, zone, md, hmd, Or.inl ⟨hempty, h2⟩⟩
+    · exact absurd hempty h3.2.2
+    · obtain ⟨zone', hf'⟩ := findDs_insecure _ _ _ h4.2
+      exact ihJ _ _ hf'
+
+/-- **Insecure ⇒ denial (partial).**  Full statement (`insecure_implies_denial`): a record is returned Insecure
+only if, for a zone cut *above the record*, the DS query returned no DS with a Secure denial, or only
+unsupported algorithms.  For the code as it is that is false twice over: without `DsAnswersHaveDs` any DS
+answer without a DS downgrades (`ds_answer_without_ds_downgrades`), and the zone need not be related to the
+record (`insecure_authority_accepts_denial`).  Proved, by induction on the fuel, under `DsAnswersHaveDs`:
+an Insecure record implies that for *some* zone the validator holds a validated DS response that is an
+NSEC/NSEC3-proved negative answer or a Secure DS RRset without a usable record (`Justified`). -/
+theorem insecure_implies_denial_partial {env : Env} (hc : UpClean env) (hH : DsAnswersHaveDs env) :
+    ∀ (fuel d : Nat) (q : Query) (m : Msg), validate env fuel d q = .ok m →
+      ∀ sec, sec < 3 → ∀ r ∈ m.sec sec, r.proof = .insecure → Justified env := by
+  have key : ∀ n : Nat,
+      (∀ d q m, validate env n d q = .ok m → ∀ sec, sec < 3 → ∀ r ∈ m.sec sec, r.proof = .insecure →
+        Justified env) ∧
+      (∀ d zone, fetchDs (validate env n d) zone = .err .insecure → Justified env) := by
+    intro n
+    induction n with
+    | zero =>
+      refine ⟨fun d q m h => by simp [validate] at h, fun d zone hf => ?_⟩
+      obtain ⟨md, hmd, _⟩ := fetchDs_insecure _ _ hf
+      simp [validate] at hmd
+    | succ n ih => exact denial_step hc hH n ih.1 ih.2
+  intro fuel d q m h
+  exact (key fuel).1 d q m h
+
 /-! ## no panic -/
 
 /-- no response of the upstream has an RRSIG covering DNSKEY without a DNSKEY of that owner in its section -/
@@ -567,6 +691,61 @@ theorem upClean_of_trace (trace : List (Query × UpOut)) (anchor : Nat → Bool)
     simp only [cleanOut, List.all_eq_true, beq_iff_eq] at this
     exact this r hr
 
+theorem traceFind_mem' (trace : List (Query × UpOut)) (i : Nat) (q : Query) (o : UpOut)
+    (h : (traceFind trace i q).out = o) (hne : o ≠ .missing) : ∃ e ∈ trace, e.1 = q ∧ e.2 = o := by
+  induction trace generalizing i with
+  | nil => simp [traceFind] at h; exact absurd h.symm hne
+  | cons e rest ih =>
+    obtain ⟨q', o'⟩ := e
+    unfold traceFind at h
+    split at h
+    · rename_i hq
+      exact ⟨(q', o'), List.mem_cons_self, by simpa using hq, h⟩
+    · obtain ⟨e, he, h'⟩ := ih _ h
+      exact ⟨e, List.mem_cons_of_mem _ he, h'⟩
+
+/-- `UpClean` for any environment whose upstream replays a trace of unvalidated records -/
+theorem upClean_of_up (env : Env) (trace : List (Query × UpOut)) (hup : env.up = traceUp trace)
+    (h : trace.all (fun e => cleanOut e.2) = true) : UpClean env := by
+  intro q m hm r hr
+  simp only [List.all_eq_true] at h
+  rw [hup] at hm
+  rcases hm with hm | hm
+  · obtain ⟨e, he, heq⟩ := traceFind_mem trace 0 q _ hm (by simp)
+    have := h e he
+    rw [heq] at this
+    simp only [cleanOut, List.all_eq_true, beq_iff_eq] at this
+    exact this r hr
+  · obtain ⟨e, he, heq⟩ := traceFind_mem trace 0 q _ hm (by simp)
+    have := h e he
+    rw [heq] at this
+    simp only [cleanOut, List.all_eq_true, beq_iff_eq] at this
+    exact this r hr
+
+/-- `DsAnswersHaveDs` for a replayed trace on which the class predicate of `C07.DsAnswerWithoutDsAccepted` is false -/
+theorem dsAnswersHaveDs_of_up (env : Env) (trace : List (Query × UpOut)) (hup : env.up = traceUp trace)
+    (h : dsAnswerWithoutDs trace = false) : DsAnswersHaveDs env := by
+  intro zone qid m hupm hne
+  unfold dsAnswerWithoutDs at h
+  simp only [List.any_eq_false] at h
+  unfold upMsg at hupm
+  rw [hup] at hupm
+  split at hupm
+  · rename_i m' hm
+    obtain ⟨e, he, heq1, heq2⟩ := traceFind_mem' trace 0 _ _ hm (by simp)
+    have := h e he
+    rw [heq1, heq2] at this
+    injection hupm with hupm; injection hupm with _ hupm; subst hupm
+    simp only [tDS, beq_self_eq_true, Bool.true_and, Bool.and_eq_true, Bool.not_eq_true', not_and,
+      Bool.not_eq_false, List.isEmpty_eq_false_iff, ne_eq] at this
+    have hany := this hne
+    simp only [List.any_eq_true, beq_iff_eq] at hany
+    exact hany
+  · rename_i m' hm
+    injection hupm with hupm; injection hupm with _ hupm; subst hupm
+    simp at hne
+  · simp at hupm
+
 namespace Ex
 /-! A two-level hierarchy: the root (trust anchor `kr`) delegates `z.` with a DS `dsz` covering `kz`;
 `www.z. A` is signed by `kz`.  Record ids: a 0, sigA 1, kz 2, sigKz 3, dsz 4, sigDs 5, kr 6, sigKr 7. -/
@@ -762,6 +941,16 @@ theorem insecure_authority_accepts_denial :
     insecureAuthorityDenial { rcode := 3, an := [], ns := [ins' u], ad := [] } = true ∧
     serverView false qA (validate envForeignInsecure 27 0 qA) = (3, false) := by
   decide
+
+open Ex in
+/-- non-vacuity of `insecure_implies_denial_partial`: in that run no DS answer lacks a DS (`DsAnswersHaveDs`), and
+the Insecure record is indeed `Justified` — by the validated NSEC denial of `u. DS`, a zone unrelated to `www.z.`,
+which is exactly what the full statement would forbid. -/
+example : Justified envForeignInsecure :=
+  insecure_implies_denial_partial
+    (upClean_of_up envForeignInsecure traceForeignInsecure rfl (by decide))
+    (dsAnswersHaveDs_of_up envForeignInsecure traceForeignInsecure rfl (by decide))
+    27 0 qA _ insecure_authority_accepts_denial.1 1 (by omega) (ins' u) (by simp [Msg.sec]) rfl
 
 /-- **Replay of finding `C07.SoaAnswerWithoutSoaNotServfail`** (kernel-checked): a SOA query answered with the
 orphaned, Bogus RRSIG of the SOA alone reaches the server as "no records" and is forwarded NOERROR. -/
